@@ -234,6 +234,9 @@ func (group *Group) Dispose() {
 	if group.psPubSession != nil {
 		group.psPubSession.Dispose()
 	}
+	if group.customizePubSession != nil {
+		group.customizePubSession.Dispose()
+	}
 
 	for session := range group.rtmpSubSessionSet {
 		session.Dispose()
